@@ -30,7 +30,7 @@ def drop_from_list(program: dict, path: list, min_len: int = 0) -> Iterator[dict
     n = len(lst)
     if n <= min_len:
         return
-    chunk = n // 2
+    chunk = max(1, n // 2)
     while chunk >= 1:
         start = 0
         while start < n:
